@@ -40,7 +40,7 @@ class Reads:
         self.self_fields = {}   # field -> set(nearby consts)
         self.abs = {}           # (i, field) -> consts
         self.rel = {}           # (k, field) -> consts
-        self.unknown_gtxns = set()
+        self.unknown_gtxns = {}       # field -> consts : index expression not one of the recognised forms
         self.cminus = {}        # (n, field) -> consts : member n - GroupIndex
         self.size_consts = set()
         self.uses_size = False
@@ -74,7 +74,7 @@ class Reads:
             elif op == "gtxns":
                 tgt = self._gtxns_target(k)
                 if tgt is None:
-                    self.unknown_gtxns.add(ins[1])
+                    self.unknown_gtxns.setdefault(ins[1], set()).update(self._near(k))
                 elif tgt[0] == "abs":
                     self.abs.setdefault((tgt[1], ins[1]), set()).update(self._near(k))
                     self.abs_read_pcs[k] = tgt[1]
@@ -223,9 +223,9 @@ def position_dims(reads, s, own):
     for (n, f), c in reads.cminus.items():
         if f != "GroupIndex" and n - own >= 0:
             add(n - own, f, c)
-    for f in reads.unknown_gtxns:
+    for f, c in reads.unknown_gtxns.items():
         for p in range(s):
-            add(p, f, set())
+            add(p, f, c)
     return pos
 
 
